@@ -690,6 +690,9 @@ def frame_items(tier):
   for path in paths:
     for variant in SAFE:
       for feats in ('none', 'builtins'):
+        if tier == 'quick' and len(path) == 3 and (len(items) + (feats == 'none')) % 2:
+          idx += 1
+          continue                    # quick: the 27 deepest nests alternate between the two feature settings
         self_name = 'this' if (idx % 5 == 0 and variant.startswith('super') and variant != 'super-classmethod') else 'self'
         items.append((idx, path, variant, feats, self_name))
         idx += 1
